@@ -927,6 +927,20 @@ PINNED = {
    "intersects:miss-to-hit:face-minus-pos-overflows": 52,
    "reported-points:findEntryAndExitPoints:entry-never-written:face-minus-pos-overflows": 32,
    "reported-points:findEntryAndExitPoints:exit-never-written:face-minus-pos-overflows": 32
+  },
+  "fixed-underflow-t-max": {
+   "findEntryAndExitPoints:hit-to-miss:all-components-fail-guard:t-le-TMAX": 304,
+   "reported-points:findEntryAndExitPoints:entry-never-written:all-components-fail-guard": 56,
+   "reported-points:findEntryAndExitPoints:entry-never-written:zero-direction": 8,
+   "reported-points:findEntryAndExitPoints:exit-never-written:all-components-fail-guard": 56,
+   "reported-points:findEntryAndExitPoints:exit-never-written:zero-direction": 8
+  },
+  "fixed-underflow-t-min": {
+   "findEntryAndExitPoints:hit-to-miss:all-components-fail-guard:t-le-TMAX": 304,
+   "reported-points:findEntryAndExitPoints:entry-never-written:all-components-fail-guard": 56,
+   "reported-points:findEntryAndExitPoints:entry-never-written:zero-direction": 8,
+   "reported-points:findEntryAndExitPoints:exit-never-written:all-components-fail-guard": 56,
+   "reported-points:findEntryAndExitPoints:exit-never-written:zero-direction": 8
   }
  },
  "float": {
@@ -1039,6 +1053,20 @@ PINNED = {
    "intersects:miss-to-hit:face-minus-pos-overflows": 56,
    "reported-points:findEntryAndExitPoints:entry-never-written:face-minus-pos-overflows": 32,
    "reported-points:findEntryAndExitPoints:exit-never-written:face-minus-pos-overflows": 32
+  },
+  "fixed-underflow-t-max": {
+   "findEntryAndExitPoints:hit-to-miss:all-components-fail-guard:t-le-TMAX": 304,
+   "reported-points:findEntryAndExitPoints:entry-never-written:all-components-fail-guard": 56,
+   "reported-points:findEntryAndExitPoints:entry-never-written:zero-direction": 8,
+   "reported-points:findEntryAndExitPoints:exit-never-written:all-components-fail-guard": 56,
+   "reported-points:findEntryAndExitPoints:exit-never-written:zero-direction": 8
+  },
+  "fixed-underflow-t-min": {
+   "findEntryAndExitPoints:hit-to-miss:all-components-fail-guard:t-le-TMAX": 304,
+   "reported-points:findEntryAndExitPoints:entry-never-written:all-components-fail-guard": 56,
+   "reported-points:findEntryAndExitPoints:entry-never-written:zero-direction": 8,
+   "reported-points:findEntryAndExitPoints:exit-never-written:all-components-fail-guard": 56,
+   "reported-points:findEntryAndExitPoints:exit-never-written:zero-direction": 8
   }
  }
 }
